@@ -44,7 +44,7 @@ static void on_cand(uint32_t sidx, uint64_t off, uint32_t backtrack)
   candlen += sprintf(candlog + candlen, "%s%u@%" PRIu64 "/%u", candlen ? "," : "", sidx, off, backtrack);
 }
 
-typedef struct { int first_rule; int first_match; } CBST;
+typedef struct { int first_rule; int first_match; int nsm; } CBST;
 static char* mlog; static size_t mcap, mlen;
 static void memit(const char* fmt, ...)
 {
@@ -72,7 +72,8 @@ static int scan_cb(YR_SCAN_CONTEXT* ctx, int msg, void* data, void* ud)
       // walk the list directly: yr_string_matches_foreach hides private matches
       for (m = ctx->matches[s->idx].head; m != NULL; m = m->next)
       {
-        memit("%s%s.%s@%" PRId64 ":%d:%d%s", st->first_match ? "" : ";", r->identifier, s->identifier,
+        if (st->nsm) memit("%s%s:", st->first_match ? "" : ";", r->ns->name);
+        memit("%s%s.%s@%" PRId64 ":%d:%d%s", (st->first_match || st->nsm) ? "" : ";", r->identifier, s->identifier,
               (int64_t) (m->base + m->offset), m->match_length, (int) m->xor_key, m->is_private ? "p" : "");
         st->first_match = 0;
       }
@@ -152,7 +153,7 @@ int main()
     outlen = 0; atomlen = 0; candlen = 0; mlen = 0; out[0] = 0;
     YR_COMPILER* comp = NULL; YR_RULES* rules = NULL; YR_SCANNER* sc = NULL;
     VF_ERRS errs = {{0}, 0, 0};
-    const char* ns = NULL; int fast = 0, want_atoms = 0, want_cands = 0, want_info = 0, want_actab = 0;
+    const char* ns = NULL; int fast = 0, want_atoms = 0, want_cands = 0, want_info = 0, want_actab = 0, want_nsm = 0;
     uint8_t* buf = NULL; size_t buflen = 0; uint8_t* atomq = NULL; size_t atomqlen = 0;
     size_t cuts[64]; int ncuts = -1;
     int failed = 0, i;
@@ -172,6 +173,7 @@ int main()
       else if (!strncmp(toks[i], "cands=", 6)) want_cands = 1;
       else if (!strncmp(toks[i], "info=", 5)) want_info = 1;
       else if (!strncmp(toks[i], "actab=", 6)) want_actab = 1;
+      else if (!strncmp(toks[i], "nsm=", 4)) want_nsm = 1;
       else if (!strncmp(toks[i], "fast=", 5)) fast = atoi(toks[i] + 5);
       else if (!strncmp(toks[i], "atomq=", 6)) atomq = unhex(toks[i] + 6, &atomqlen);
       else if (!strncmp(toks[i], "buf=", 4)) buf = unhex(toks[i] + 4, &buflen);
@@ -225,7 +227,7 @@ int main()
       }
     if (!failed)
     {
-      CBST st = {1, 1};
+      CBST st = {1, 1, want_nsm};
       yr_scanner_set_flags(sc, (fast ? SCAN_FLAGS_FAST_MODE : 0) | SCAN_FLAGS_REPORT_RULES_MATCHING | SCAN_FLAGS_REPORT_RULES_NOT_MATCHING);
       yr_scanner_set_callback(sc, scan_cb, &st);
       yr_verif_on_candidate = want_cands ? on_cand : NULL;
